@@ -12,7 +12,16 @@ NormalForm(pr) == \A n \in 1..(Len(pr) - 1) :
                      pr[n].z < pr[n + 1].z \/ (pr[n].z = pr[n + 1].z /\ KindRank(pr[n].kind) <= KindRank(pr[n + 1].kind))
 CountOf(sq, z, k) == Cardinality({n \in 1..Len(sq) : sq[n].z = z /\ sq[n].k = k})
 CountOfP(sq, z, k) == Cardinality({n \in 1..Len(sq) : sq[n].z = z /\ sq[n].kind = k})
-Why(c) ==
+\* hand-written journals (no abstract journal behind them): the round trip is judged on the observations alone
+WhyText(c) ==
+  IF ~c.obs.accepted THEN "ok"
+  ELSE IF c.obs.exit1 # 0 THEN "print-failed"
+  ELSE IF ~c.obs.check2 THEN "printed-journal-is-not-accepted"
+  ELSE IF c.obs.p1 # c.obs.p2 THEN "print-is-not-a-fixpoint"
+  ELSE IF c.obs.bal1 # c.obs.bal2 THEN "balance-report-changed-by-printing"
+  ELSE IF ~NormalForm(c.obs.printed) THEN "not-in-normal-form"
+  ELSE "ok"
+WhyModel(c) ==
   LET ok == Lifecycle(c).err.k = "none"
       ex == Expanded(c)
       keys == {<<ex[n].z, ex[n].k>> : n \in 1..Len(ex)} \cup {<<c.obs.printed[n].z, c.obs.printed[n].kind>> : n \in 1..Len(c.obs.printed)}
@@ -26,6 +35,7 @@ Why(c) ==
      \* the printed directives are exactly the model's expanded journal (accrual parts included), per day and kind
      ELSE IF \E key \in keys : CountOf(ex, key[1], key[2]) # CountOfP(c.obs.printed, key[1], key[2]) THEN "directive-lost-or-duplicated"
      ELSE "ok"
+Why(c) == IF c.kind = "text" THEN WhyText(c) ELSE WhyModel(c)
 Init == i = 1 /\ failed = << >>
 Next == /\ i <= Len(Cases)
         /\ i' = i + 1
